@@ -23,7 +23,13 @@ ANCHOR_FILES = {'C01': ['vermouth/processors/do_mapping.py', 'vermouth/map_parse
 def with_state_lint(prop, run):
     """Every property also runs the state lint over the files it is anchored in."""
     def wrapped(check):
-        run(check)
+        from ..index import AnalysisError
+        pending = None
+        try:
+            run(check)
+        except AnalysisError as err:
+            # a clause rule lost its anchor: the shared lints and the helper contracts are still evaluated (they do not depend on it), then the error is raised
+            pending = err
         from . import shared
         rels = [f for f in ANCHOR_FILES.get(prop, []) if f in check.index.modules]
         if rels:
@@ -40,6 +46,13 @@ def with_state_lint(prop, run):
             shared.no_live_view_in_mutating_loop(check, rels)
             shared.no_shared_object_filled_per_iteration(check, rels)
             shared.no_reused_one_shot_iterator(check, rels)
+            shared.attribute_view_sites(check, rels)
         from . import helpers
-        helpers.helper_contracts(check)
+        try:
+            helpers.helper_contracts(check)
+        except AnalysisError:
+            if pending is None:
+                raise
+        if pending is not None:
+            raise pending
     return wrapped
